@@ -906,7 +906,10 @@ static void op_oct(const std::vector< std::string > &w) {
     const CoordinateVector<> q(dbl(w[2]), dbl(w[3]), dbl(w[4]));
     const double rad = (sub == "sphere") ? dbl(w[5]) : 0.;
     std::vector< uint_fast32_t > res = (sub == "sphere") ? oc->get_ngbs_sphere(q, rad) : oc->get_ngbs(q);
-    std::cout << "oct " << sub << "\n";
+    std::cout << "oct " << sub << " " << res.size();
+    for (size_t i = 0; i < res.size(); ++i)
+      std::cout << " " << res[i];
+    std::cout << "\n";
     std::set< uint_fast32_t > got(res.begin(), res.end());
     std::string bad;
     if (got.size() != res.size())
@@ -927,7 +930,7 @@ static void op_oct(const std::vector< std::string > &w) {
   if (sub == "closest" && w.size() == 5) {
     const CoordinateVector<> q(dbl(w[2]), dbl(w[3]), dbl(w[4]));
     const uint_fast32_t r = oc->get_closest_ngb(q);
-    std::cout << "oct closest\n";
+    std::cout << "oct closest " << r << "\n";
     double best = DBL_MAX;
     for (size_t i = 0; i < oc_pos.size(); ++i)
       best = std::min(best, oc_dist(oc_pos[i], q));
@@ -938,82 +941,88 @@ static void op_oct(const std::vector< std::string > &w) {
   std::cout << "bad-op\n";
 }
 
-// ---------------------------------------------------------------- AMRDensityGrid (oracle only)
-static uint64_t hash3(double x, double y, double z, uint64_t seed) {
-  uint64_t h = seed * 0x9E3779B97F4A7C15ull + 0x632BE59BD9B4E019ull;
-  const double v[3] = {x, y, z};
-  for (int i = 0; i < 3; ++i) {
-    h ^= bits_of(v[i]) + 0x9E3779B97F4A7C15ull + (h << 6) + (h >> 2);
-    h *= 0xBF58476D1CE4E5B9ull;
-    h ^= h >> 29;
-  }
-  return h;
+// ---------------------------------------------------------------- AMRDensityGrid
+static AMRDensityGrid *amrd = nullptr;
+static Box<> amrd_box;
+static bool amrd_per[3];
+static std::vector< double > amrd_xt, amrd_dt;
+static std::vector< amrkey_t > amrd_keys; // 64-bit key of every cell of the cell list
+
+static double amrd_tab(const std::vector< double > &t, amrkey_t k) {
+  return t.empty() ? 0. : t[(k % 1000003ull) % t.size()];
+}
+
+// key of the cell with the given index in the cell list (from its level and midpoint)
+static amrkey_t amrd_key_of(AMRDensityGrid &grid, cellsize_t c) {
+  return grid._grid.get_key(grid._cells[c]->get_level(), grid._cells[c]->get_midpoint());
 }
 
 class HarnessDensityFunction : public DensityFunction {
 public:
-  uint64_t seed;
-  HarnessDensityFunction(uint64_t s) : seed(s) {}
   DensityValues operator()(const Cell &cell) {
     DensityValues values;
-    const CoordinateVector<> m = cell.get_cell_midpoint();
-    values.set_number_density(1. + (hash3(m.x(), m.y(), m.z(), seed) % 4) * 0.5);
+    values.set_number_density(1.);
     values.set_temperature(4000.);
     return values;
   }
 };
 
+// refines exactly the cells whose keys are listed in the operation (so that the Lean model and
+// the real grid hold the same tree)
 class HarnessRefinementScheme : public AMRRefinementScheme {
 public:
-  uint64_t seed;
-  uint_fast8_t depth;
-  CoordinateVector<> focus;
-  double radius;
-  HarnessRefinementScheme(uint64_t s, uint_fast8_t d, CoordinateVector<> f, double r)
-      : seed(s), depth(d), focus(f), radius(r) {}
+  std::set< amrkey_t > keys;
+  AMRDensityGrid *grid;
+  HarnessRefinementScheme() : grid(nullptr) {}
   virtual bool refine(uint_fast8_t level, DensityGrid::iterator &cell) const {
-    if (level >= depth)
+    if (grid == nullptr)
       return false;
-    const CoordinateVector<> m = cell.get_cell_midpoint();
-    // refine around a focus point (deep) and pseudo-randomly elsewhere (shallow)
-    if ((m - focus).norm() < radius * (1. + 1.5 / (1 << level)))
-      return true;
-    return level < 2 && hash3(m.x(), m.y(), m.z(), seed) % 5 == 0;
+    const amrkey_t k = grid->_grid.get_key(level, cell.get_cell_midpoint());
+    return keys.count(k) > 0;
   }
 };
 
-static AMRDensityGrid *amrd = nullptr;
-static Box<> amrd_box;
-static bool amrd_per[3];
-static uint64_t amrd_seed = 0;
-
-static double amrd_x(uint64_t c) { return 0.2 + 0.3 * ((c * 2654435761ull + amrd_seed) % 7); }
-
 static void op_amrd(const std::vector< std::string > &w) {
   const std::string &sub = w[1];
-  if (sub == "new" && w.size() == 19) {
+  if (sub == "new" && w.size() >= 17) {
     delete amrd;
     amrd_box = Box<>(CoordinateVector<>(dbl(w[2]), dbl(w[3]), dbl(w[4])),
                      CoordinateVector<>(dbl(w[5]), dbl(w[6]), dbl(w[7])));
-    const CoordinateVector< uint_fast32_t > n(u64(w[8]), u64(w[9]), u64(w[10]));
+    const uint64_t level = u64(w[11]);
+    const CoordinateVector< uint_fast32_t > nb(u64(w[8]), u64(w[9]), u64(w[10]));
+    const CoordinateVector< uint_fast32_t > n(nb.x() << level, nb.y() << level, nb.z() << level);
     for (int i = 0; i < 3; ++i)
-      amrd_per[i] = (w[11 + i] == "1");
-    amrd_seed = u64(w[14]);
-    const CoordinateVector<> focus(dbl(w[16]), dbl(w[17]), dbl(w[18]));
-    const double rad = 0.15 * std::min(amrd_box.get_sides().x(),
-                                       std::min(amrd_box.get_sides().y(), amrd_box.get_sides().z()));
-    HarnessDensityFunction df(amrd_seed);
-    amrd = new AMRDensityGrid(amrd_box, n, new HarnessRefinementScheme(amrd_seed, u64(w[15]), focus, rad), 5,
+      amrd_per[i] = (w[12 + i] == "1");
+    size_t q = 15;
+    amrd_xt.clear();
+    amrd_dt.clear();
+    for (; q < w.size() && w[q] != "|"; ++q)
+      amrd_xt.push_back(dbl(w[q]));
+    for (++q; q < w.size() && w[q] != "|"; ++q)
+      amrd_dt.push_back(dbl(w[q]));
+    HarnessRefinementScheme *scheme = new HarnessRefinementScheme();
+    for (++q; q < w.size(); ++q)
+      scheme->keys.insert(u64(w[q]));
+    HarnessDensityFunction df;
+    amrd = new AMRDensityGrid(amrd_box, n, scheme, 5,
                               CoordinateVector< bool >(amrd_per[0], amrd_per[1], amrd_per[2]));
+    scheme->grid = amrd;
     std::pair< cellsize_t, cellsize_t > block = std::make_pair(0, amrd->get_number_of_cells());
     amrd->initialize(block, df);
     const uint64_t nc = amrd->get_number_of_cells();
+    amrd_keys.assign(nc, 0);
     for (uint64_t c = 0; c < nc; ++c) {
+      amrd_keys[c] = amrd_key_of(*amrd, c);
       IonizationVariables &iv = DensityGrid::iterator(c, *amrd).get_ionization_variables();
-      iv.set_ionic_fraction(ION_H_n, amrd_x(c));
+      iv.set_number_density(amrd_tab(amrd_dt, amrd_keys[c]));
+      iv.set_ionic_fraction(ION_H_n, amrd_tab(amrd_xt, amrd_keys[c]));
       iv.set_ionic_fraction(ION_He_n, 0.);
     }
-    std::cout << "amrd new\n";
+    if (amrd->_grid._ncell.x() != nb.x() || amrd->_grid._ncell.y() != nb.y() || amrd->_grid._ncell.z() != nb.z()) {
+      std::cout << "amrd new block-layout-differs\n";
+      return;
+    }
+    std::cout << "amrd new " << nc << "\n";
     // oracle: volumes sum to the box, enumeration over keys = cell list
     double vol = 0.;
     for (uint64_t c = 0; c < nc; ++c)
@@ -1043,19 +1052,21 @@ static void op_amrd(const std::vector< std::string > &w) {
   const CoordinateVector<> sc = box_scale(amrd_box);
   if (sub == "loc" && w.size() == 5) {
     const CoordinateVector<> p(dbl(w[2]), dbl(w[3]), dbl(w[4]));
-    std::cout << "amrd loc\n";
     if (amr_out_of_range(amrd->_grid, amrd_box, amrd->_grid._ncell, p) && !probe_ok([&]() {
           const cellsize_t cc = amrd->get_cell_index(p);
           return cc < nc && in_box(amrd->_cells[cc]->get_geometry(), p, AMR_TOL, sc);
         })) {
+      std::cout << "amrd loc implementation-failed\n";
       oracle("locate-index-out-of-range amrdensitygrid");
       return;
     }
     const cellsize_t c = amrd->get_cell_index(p);
     if (c >= nc) {
+      std::cout << "amrd loc " << (int64_t)c << "\n";
       oracle("amrdensitygrid-cell-index-out-of-range");
       return;
     }
+    std::cout << "amrd loc " << amrd_keys[c] << "\n";
     if (!in_box(amrd->_cells[c]->get_geometry(), p, AMR_TOL, sc))
       oracle("amrdensitygrid-located-cell-does-not-contain-position");
     for (uint64_t o = 0; o < nc; ++o)
@@ -1071,11 +1082,11 @@ static void op_amrd(const std::vector< std::string > &w) {
     const double tau = dbl(w[8]), sH = dbl(w[9]);
     for (uint64_t c = 0; c < nc; ++c)
       DensityGrid::iterator(c, *amrd).get_ionization_variables().reset_mean_intensities();
-    std::cout << "amrd ray\n";
     if (amr_out_of_range(amrd->_grid, amrd_box, amrd->_grid._ncell, p0) && !probe_ok([&]() {
           const cellsize_t cc = amrd->get_cell_index(p0);
           return cc < nc && in_box(amrd->_cells[cc]->get_geometry(), p0, AMR_TOL, sc);
         })) {
+      std::cout << "amrd ray implementation-failed\n";
       oracle("locate-index-out-of-range amrdensitygrid");
       return;
     }
@@ -1086,14 +1097,25 @@ static void op_amrd(const std::vector< std::string > &w) {
     const CoordinateVector<> pf = photon.get_position();
     const bool absorbed = !(it == amrd->end());
     double total = 0., taudone = 0., kmax = 0., smax = 0.;
+    std::vector< std::pair< amrkey_t, double > > js;
     for (uint64_t c = 0; c < nc; ++c) {
       const IonizationVariables &iv = DensityGrid::iterator(c, *amrd).get_ionization_variables();
       const double J = iv.get_mean_intensity(ION_H_n);
       const double kappa = iv.get_number_density() * sH * iv.get_ionic_fraction(ION_H_n);
       kmax = std::max(kmax, kappa);
-      total += J;
       taudone += (J / sH) * kappa;
+      if (J != 0.)
+        js.push_back(std::make_pair(amrd_keys[c], J));
     }
+    std::sort(js.begin(), js.end());
+    for (size_t i = 0; i < js.size(); ++i)
+      total += js[i].second;
+    std::cout << "amrd ray " << (absorbed && it.get_index() < nc ? (int64_t)amrd_keys[it.get_index()] : -1) << " "
+              << showF(pf.x()) << " " << showF(pf.y()) << " " << showF(pf.z()) << " " << js.size() << " "
+              << showF(total);
+    for (size_t i = 0; i < js.size() && i < 10; ++i)
+      std::cout << " " << js[i].first << " " << showF(js[i].second);
+    std::cout << "\n";
     for (int i = 0; i < 3; ++i)
       smax = std::max(smax, amrd_box.get_sides()[i]);
     const double S = total / sH;
